@@ -1135,10 +1135,11 @@ def mem_pool(rnd, contig=False, top=False):
 
 
 def mem_letter(a, k=0):
+    # every fifth update with good descriptors hands the last region's file over opened read-only
     if a["op"] == "set_mem_table":
-        return dict(op="set_mem_table", rids=a["rids"], badfd=a["bad"])
+        return dict(op="set_mem_table", rids=a["rids"], badfd=a["bad"], rdonly=(not a["bad"]) and k % 5 == 3)
     if a["op"] == "add_mem_reg":
-        return dict(op="add_mem_reg", rid=a["rid"], badfd=a["bad"])
+        return dict(op="add_mem_reg", rid=a["rid"], badfd=a["bad"], rdonly=(not a["bad"]) and k % 5 == 3)
     # the region to remove is identified by its guest range; in half of the letters the descriptor's user address is not
     # the one the region was added with (a frontend that fills in guest address and size only)
     return dict(op="rem_mem_reg", rid=a["rid"], size_delta=a["delta"], badfd=False, ua_zero=(k + a["rid"]) % 2 == 1)
